@@ -18,6 +18,12 @@ pub enum R {
     /// through a Sender / a Caller the client has held since before any restart
     SendSnd,
     CallCal,
+    /// through the weak sender / weak caller the client holds (its own, or - after `AdoptCtx` -
+    /// the ones the actor's context minted before any restart)
+    SendW,
+    CallW,
+    ForceW,
+    AdoptCtx,
     /// await the address (the client learns how the actor ended)
     Await,
     Restart,
@@ -39,6 +45,10 @@ fn to_op(r: R, id: u32) -> Op {
         R::Call => Op::Call(H::Addr(0), id),
         R::SendSnd => Op::Send(H::Snd(0), id),
         R::CallCal => Op::Call(H::Cal(0), id),
+        R::SendW => Op::Send(H::WSnd(0), id),
+        R::CallW => Op::Call(H::WCal(0), id),
+        R::ForceW => Op::ForceSend(H::WSnd(0), id),
+        R::AdoptCtx => Op::AdoptCtx,
         R::Await => Op::Await(H::Addr(0)),
         R::Restart => Op::Restart(H::Addr(0)),
         R::CmdRestart => Op::Cmd(H::Addr(0), id, Action::Restart),
@@ -241,6 +251,18 @@ fn oracle(s: &ProgScene<X>, t: &Trace) -> Vec<Violation> {
                     clause: "handles-stay-valid",
                     key: format!("C07/call-failed-across-restart/strategy={sk}"),
                     detail: format!("call by client {} op {} returned {res:?} although the actor never failed", o.c, o.i),
+                });
+            }
+        }
+        // ... and so does a send, through whatever kind of handle (nobody stops the actor in this
+        // family, and the client keeps a strong address, so a weak handle upgrades)
+        if let (Some(op @ (Op::Send(..) | Op::ForceSend(..))), Some(res)) = (op_at(o.c, o.i), o.res) {
+            crate::check::oblige("handles-stay-valid");
+            if !res.is_ok() && !failed_start {
+                out.push(Violation {
+                    clause: "handles-stay-valid",
+                    key: format!("C07/send-failed-across-restart/strategy={sk}"),
+                    detail: format!("{op:?} by client {} returned {res:?} although the actor never failed and nobody stopped it", o.c),
                 });
             }
         }
@@ -568,7 +590,7 @@ fn make_case(progs: &[Vec<R>], strat: Strat, mailbox: Mailbox, start_err_at: Opt
     let mut clients = vec![];
     for (c, p) in progs.iter().enumerate() {
         let ops: Vec<Op> = p.iter().enumerate().map(|(i, r)| to_op(*r, msg_id(c, i))).collect();
-        clients.push(ClientSpec { init: vec![HInit::Addr, HInit::Snd, HInit::Cal], ops });
+        clients.push(ClientSpec { init: vec![HInit::Addr, HInit::Snd, HInit::Cal, HInit::WSnd, HInit::WCal], ops });
     }
     let mut role = RoleCfg::default();
     if let Some(n) = start_err_at {
@@ -576,6 +598,10 @@ fn make_case(progs: &[Vec<R>], strat: Strat, mailbox: Mailbox, start_err_at: Opt
         role.started.push(StartBeh::Err);
     }
     role.started_actions = started_timers.to_vec();
+    if progs.iter().flatten().any(|r| *r == R::AdoptCtx) {
+        // started() hands out the weak sender and weak caller its context makes
+        role.started_actions.push(Action::ShareCtxHandles);
+    }
     // a handler timeout is configured and the hooks of a restart take longer than it: the limit is
     // about handlers, a restart still goes through
     let slow_hooks = SLOW_HOOKS.with(|s| s.get());
@@ -736,6 +762,35 @@ fn cases(tier: Tier) -> Vec<Case> {
             for via in [R::Restart, R::CmdRestart] {
                 v.push(make_case(&[vec![R::SendSnd, via, R::SendSnd, R::CallCal]], strat, mb, None, &[], 0, None));
                 v.push(make_case(&[vec![R::CallCal, via, R::CallCal, via, R::SendSnd, R::Call]], strat, mb, None, &[], 0, None));
+            }
+        }
+    }
+    // ... and the weak sender and weak caller: the client's own, and the ones the actor's context
+    // minted before the restart (adopted by the client from the first incarnation's started())
+    for &strat in &[Strat::Default, Strat::Recreate] {
+        for &mb in mbs {
+            for via in [R::Restart, R::CmdRestart] {
+                for adopt in [false, true] {
+                    let pre: Vec<R> = if adopt { vec![R::AdoptCtx] } else { vec![] };
+                    let mk = |tail: &[R]| pre.iter().copied().chain(tail.iter().copied()).collect::<Vec<R>>();
+                    v.push(make_case(&[mk(&[R::SendW, via, R::SendW, R::CallW])], strat, mb, None, &[], 0, None));
+                    v.push(make_case(&[mk(&[R::CallW, via, R::ForceW, via, R::SendW, R::Call])], strat, mb, None, &[], 0, None));
+                    v.push(make_case(&[mk(&[via, R::CallW, R::SendW]), vec![R::SendW, R::Call]], strat, mb, None, &[], 0, Some(3)));
+                }
+            }
+        }
+    }
+    // a delayed_exec whose future is under way when the restart comes (delays 0, 1 and 2, the work
+    // 3 ticks): it is the old incarnation's like any other timer, whether it is still waiting for
+    // its delay or already past it, and does not reach its effect in the new one
+    for &strat in &[Strat::Default, Strat::Recreate] {
+        for &mb in mbs {
+            for via in [R::Restart, R::CmdRestart] {
+                for delay in [0u32, 1, 2] {
+                    let le = Action::LongExec { timer: 9, delay, work: 3 };
+                    v.push(make_case(&[vec![R::Sleep(1), via, R::Sleep(6), R::Call]], strat, mb, None, &[le], 12, Some(3)));
+                    v.push(make_case(&[vec![R::CmdTimer(le), R::Sleep(2), via, R::Sleep(6), R::Call]], strat, mb, None, &[], 12, Some(3)));
+                }
             }
         }
     }
